@@ -74,59 +74,8 @@ Proof.
     replace (a + (lo + 1) * s)%Z with (a + lo * s + s)%Z by ring. reflexivity.
 Qed.
 
-(* ---- ForLoopPT.integral / ForLoopPT.duration ---- *)
-Theorem for_sum_correct rho i start stop step e a o s ks (f : Z -> Q) :
-  int_val rho start a -> int_val rho stop o -> int_val rho step s ->
-  indep i start rho -> indep i step rho ->
-  py_range a o s = Some ks ->
-  body_rule rho i e ks f ->
-  ev_eq rho (EIfLe (loop_count start stop step) e0 e0 (loop_sum i start stop step e)) (sumZ f ks).
-Proof.
-  intros Ha Ho Hs Ia Is Hr Hbody.
-  destruct (py_range_spec _ _ _ _ Hr) as (Hne & Hlen & _).
-  pose proof (eval_loop_count rho start stop step a o s Ha Ho Hs Hne) as Ec.
-  set (cnt := Qceil (inject_Z (o - a) / inject_Z s)) in *.
-  rewrite range_len_ceil in Hlen by assumption. fold cnt in Hlen.
-  unfold ev_eq. cbn [eval]. rewrite Ec. change (eval rho e0) with (Some 0).
-  cbv iota beta. pose proof (Qle_bool_inject_Z cnt 0) as Hb0. change (inject_Z 0) with 0 in Hb0. rewrite Hb0.
-  destruct (cnt <=? 0)%Z eqn:Ele.
-  - (* empty range *)
-    assert (ks = []) by (destruct ks; [reflexivity|simpl in Hlen; lia]). subst ks.
-    exists 0. split; reflexivity.
-  - assert (Hpos : (0 < cnt)%Z) by lia.
-    unfold loop_sum. cbn [eval]. rewrite Ec. change (eval rho e0) with (Some 0). change (eval rho e1) with (Some 1).
-    cbn [omap2].
-    assert (Hh : Qmax (inject_Z cnt) 1 - 1 == inject_Z (cnt - 1)).
-    { unfold Qmax. pose proof (Qle_bool_inject_Z cnt 1) as Hb1. change (inject_Z 1) with 1 in Hb1. rewrite Hb1. destruct (cnt <=? 1)%Z eqn:E1.
-      - assert (Hc1 : cnt = 1%Z) by lia. rewrite Hc1. reflexivity.
-      - rewrite inject_Z_minus. reflexivity. }
-    destruct (is_int_of_eq _ _ Hh) as (Hi & Hf).
-    assert (H0i : is_int 0 = true) by reflexivity.
-    rewrite H0i, Hi. cbn [andb]. rewrite Hf. change (Qfloor 0) with 0%Z.
-    replace (cnt - 1 - 0 + 1)%Z with cnt by ring.
-    assert (Hlim : ((cnt <? 0) || (SUM_LIMIT <? cnt))%Z%bool = false).
-    { unfold py_range in Hr. destruct (s =? 0)%Z; [discriminate|].
-      destruct (RANGE_LIMIT <? range_len a o s)%Z eqn:EL; [discriminate|].
-      rewrite range_len_ceil in EL by assumption. fold cnt in EL. unfold SUM_LIMIT, RANGE_LIMIT in *. lia. }
-    rewrite Hlim.
-    assert (Hks : ks = range_from a s (Z.to_nat cnt)).
-    { unfold py_range in Hr. destruct (s =? 0)%Z; [discriminate|].
-      destruct (RANGE_LIMIT <? range_len a o s)%Z; [discriminate|]. inversion Hr.
-      rewrite range_len_ceil by assumption. fold cnt. f_equal. lia. }
-    pose proof (sum_from_range
-      (fun k => eval (env_upd rho i (Some (inject_Z k))) (ELet [(i, EAdd start (EMul (EV i) step))] e)) f a s (Z.to_nat cnt) 0%Z) as HS.
-    replace (a + 0 * s)%Z with a in HS by ring. rewrite <- Hks in HS. apply HS.
-    intros k Hk.
-    (* one term of the Sum: the substituted body *)
-    cbn [eval]. rewrite Ia, Is.
-    destruct Ha as (qa & Ea & Hqa). destruct Hs as (qs & Es & Hqs).
-    rewrite Ea, Es. rewrite env_upd_same. cbn [omap2].
-    apply (Hbody (a + k * s)%Z (qa + inject_Z k * qs)).
-    + rewrite Hks. replace k with (Z.of_nat (Z.to_nat k)) by lia. apply range_from_In. lia.
-    + rewrite Hqa, Hqs. rewrite inject_Z_plus, inject_Z_mult. reflexivity.
-    + intros x Hx. rewrite !env_upd_other by assumption. reflexivity.
-    + apply env_upd_same.
-Qed.
+(* ForLoopPT.integral / ForLoopPT.duration: `for_sum_correct` is in ProofsSum.v (round 6: it needs the congruence of
+   eval for the fresh sum index of a range that names its own loop index) *)
 
 (* ---- ForLoopPT.initial_values: the body's value with the index replaced by `start` ---- *)
 Theorem for_initial_correct rho i start a e (f : Z -> Q) ks o s :
